@@ -245,7 +245,8 @@ impl Property for C05 {
     }
 
     fn generate(&self, rng: &mut Rng, tier: Tier) -> Case {
-        let family = match rng.below(24) {
+        let family = match if rng.chance(1, 150) { 24 } else { rng.below(24) } {
+            24 => "big-rows",
             0..=6 => "mutated",
             7..=8 => "alphabet",
             9 => "nesting",
@@ -311,6 +312,64 @@ impl Property for C05 {
                     Policy::Stderr,
                     Policy::Stdout,
                 ])));
+            }
+            "big-rows" => {
+                // rows of 7..70 KB full of multi-byte characters, printed raw: whatever
+                // moves output in blocks meets a character lying across a block boundary.
+                // Either one long string per record, or one big row that grouping builds out
+                // of many small inputs.
+                let chars = ["a", "é", "日", "😀", "ß", "\u{7ff}", "\u{ffff}"];
+                let grouped = rng.chance(1, 3);
+                let n = if grouped { rng.range(150, 600) } else { rng.range(1, 3) };
+                for i in 0..n {
+                    let target = if grouped {
+                        rng.range(10, 120)
+                    } else {
+                        *rng.pick(&[7_000usize, 8_100, 8_190, 8_190, 9_000, 9_000, 16_300, 16_300, 20_000, 24_500, 65_400]) + rng.below(40)
+                    };
+                    let mut t = String::with_capacity(target + 8);
+                    // a seeded mix, so that the offsets of the characters differ from row to row
+                    let dense = rng.chance(1, 2);
+                    while t.len() < target {
+                        t.push_str(if dense { *rng.pick(&chars[1..]) } else { *rng.pick(&chars) });
+                    }
+                    let v = match rng.below(3) {
+                        0 => Val::Str(t),
+                        1 => Val::Obj(vec![("id".into(), Val::Int(i as i128)), ("g".into(), Val::Str("a".into())), ("s".into(), Val::Str(t))]),
+                        _ => Val::Arr(vec![Val::Str(t), Val::Int(i as i128)]),
+                    };
+                    // spelling level 0 keeps the characters raw in the input as well
+                    case.pieces.push(Piece::rec(spell(&v, rng, 0), i as u32));
+                    case.pieces.push(Piece::gap(vec![b'\n']));
+                }
+                match rng.below(5) {
+                    0 => case.opts.push(vec!["--utf8-strings".into()]),
+                    1 => {
+                        case.opts.push(vec!["-o".into(), "text".into()]);
+                        case.opts.push(vec!["--select".into(), (*rng.pick(&[".=x", ".s=x", "(stringify .)=x", "#0=x"])).to_string()]);
+                    }
+                    2 => {
+                        case.opts.push(vec!["--output-style=csv".into()]);
+                        case.opts.push(vec!["--select".into(), (*rng.pick(&[".=x", ".s=x", "(stringify .)=x", "#0=x"])).to_string()]);
+                        case.opts.push(vec!["--select".into(), ".id=y".into()]);
+                    }
+                    3 => {
+                        case.opts.push(vec!["--utf8-strings".into()]);
+                        case.opts.push(vec![format!("--style={}", rng.pick(&["pretty", "consise", "one-line"]))]);
+                    }
+                    _ => {
+                        case.opts.push(vec!["-o".into(), "text".into()]);
+                        case.opts.push(vec!["--select".into(), ".=x".into()]);
+                        case.opts.push(vec![format!("--row-seperator={}", rng.pick(&["", " ", "日"]))]);
+                    }
+                }
+                if grouped || rng.chance(1, 4) {
+                    case.opts.retain(|o| o[0] != "--output-style=csv");
+                    case.opts.push(vec![(*rng.pick(&["--group-by=.g", "--merge", "--group-by=(stringify .id)"])).to_string()]);
+                    if !has_opt(&case.opts, "--utf8-strings") && !has_opt(&case.opts, "-o") {
+                        case.opts.push(vec!["--utf8-strings".into()]);
+                    }
+                }
             }
             "numbers" => {
                 // number-shaped tokens of every build: signs, long digit runs, fractions,
@@ -492,6 +551,12 @@ impl Property for C05 {
         }
         let len = case.stream().len();
         case.delivery = gen_delivery(rng, len);
+        if family == "big-rows" && rng.chance(2, 3) {
+            case.delivery = Delivery {
+                whole: true,
+                ..Delivery::default()
+            };
+        }
         if rng.chance(1, 4) {
             // sinks that accept a few bytes at a time (a short write may end anywhere, also
             // inside a multi-byte character)
